@@ -34,7 +34,7 @@ try)
   git apply /verif/seeded/$name/patch.diff || { echo "patch does not apply"; exit 2; }
   export VERIF_EVIDENCE_DIR=/tmp/seeded_evidence
   for p in "$@"; do
-    /verif/vcheck check $p --tier quick 2>&1 | grep -E "^violation|^VIOLATION|^ok|harness|KNOWN" | cut -c1-400
+    VERIF_HANG_SECS=${VERIF_HANG_SECS:-150} timeout 1500 /verif/vcheck check $p --tier quick 2>&1 | grep -E "^violation|^VIOLATION|^ok|harness|KNOWN" | cut -c1-400
     echo "exit[$p]=${PIPESTATUS[0]}"
   done
   git -C /repo checkout -- .
